@@ -49,7 +49,7 @@ def shards(tier, seed):
     seqs = [()]
     for k in range(1, n + 1):
         seqs += list(itertools.product(range(len(CORPUS)), repeat=k))
-    b = f'all sequences of 0..{n} graphs from 9 x 7 serialisations (sequences containing the model-sensitive graph also under the AMR model) x 3 indents x 3 terminators x 6 containers x 2 APIs'
+    b = f'all sequences of 0..{n} graphs from {len(CORPUS)} x {len(SERIALS)} serialisations (sequences containing the model-sensitive graph also under the AMR model) x 3 indents x 3 terminators x 6 containers x 2 APIs'
     for i in range(0, len(seqs), 4):
         out.append({'sub': 'framing', 'seqs': [list(s) for s in seqs[i:i + 4]], 'bounds': b})
     return out
@@ -108,14 +108,15 @@ def check(case, ctx):
             return
     indent = case['indent']
     ser = case['ser']
+    compact = bool(case['seq']) and case['seq'][0] % 2 == 1      # formatting options never matter for what is read back
     d = tempfile.mkdtemp(prefix='pmc_c09_')
     try:
         # ---- serialise
         if ser == 'dumps':
-            text = penman.dumps(originals, model=model, indent=indent)
+            text = penman.dumps(originals, model=model, indent=indent, compact=compact)
         elif ser == 'dump_stringio':
             buf = io.StringIO()
-            penman.dump(originals, buf, model=model, indent=indent)
+            penman.dump(originals, buf, model=model, indent=indent, compact=compact)
             text = buf.getvalue()
         elif ser == 'dump_file_utf16':
             p = os.path.join(d, 'dump16.txt')
@@ -131,12 +132,12 @@ def check(case, ctx):
             p = os.path.join(d, 'dump.txt')
             with open(p, 'w', encoding='utf-8') as fh:
                 fh.write('(stale / content)\n')       # dump must replace whatever the file held
-            penman.dump(list(originals) if len(originals) % 2 == 0 else iter(originals), p, model=model, indent=indent)
+            penman.dump(list(originals) if len(originals) % 2 == 0 else iter(originals), p, model=model, indent=indent, compact=compact)
             with open(p, encoding='utf-8', newline='') as fh:
                 text = fh.read()
         else:
             joiner = {'join_blank': '\n\n', 'join_newline': '\n', 'join_space': ' ', 'join_none': ''}[ser]
-            text = joiner.join(penman.encode(g, model=model, indent=indent) for g in originals)
+            text = joiner.join(penman.encode(g, model=model, indent=indent, compact=compact) for g in originals)
         ctx.transitions += 1
         for tname, term in TERMS.items():
             t = text.replace('\n', term)
